@@ -134,6 +134,12 @@ UNITS['U33'] = dict(
                  'A-reserved: i64::MAX is not part of the value domain (property C01 states it as reserved)', 'precondition of FuseIntNulls: every shifted value is >= 1 and fits (established by the planner: offset = 1 - min, U31k)'],
     not_covered=['FuseNullsStr / FuseNullsF64', 'the u8 / u16 / u32 instances of FuseIntNulls / UnfuseIntNulls (same body, narrower arithmetic)'])
 
+UNITS['U36'] = dict(
+    kind='verus', tpl='contracts/U36_select.vx', timeout_s=300,
+    title='select.rs: Select::execute, SelectNullable::execute - output row k is input row indices[k], NULL exactly where that input row is NULL',
+    assumptions=['R6: scratchpad bindings lifted to parameters; R11: iterator headers desugared', 'SelectNullable: called on a fresh output (streaming, or once) - execute numbers the presence bits from 0'],
+    not_covered=['that the index list is in range (established by its producers: U26 permutation, U35k recorded rows, filters)'])
+
 UNITS['U03'] = dict(
     kind='verus', tpl='contracts/U03_stringpack.vx',
     title='stringpack.rs: PackedStrings::push, StringPackerIterator::next, PackedBytesIterator::{has_more,next}, IndexedPackedStrings::{push,len} + round-trip lemma',
@@ -506,12 +512,12 @@ PROPS = {
                 level_note='grouping-key construction, hash-map grouping and the final pass are not covered',
                 technique='contract-based deductive verification (Verus + Kani complete harnesses) of extracted functions',
                 assumptions=[], not_covered=['hashmap_grouping*', 'try_bitpacking (float log2)']),
-    'C05': dict(level='proof', units=['U10', 'U11', 'U12k', 'U13k', 'U26', 'U29', 'U33', 'U35k', 'U27k'],
+    'C05': dict(level='proof', units=['U10', 'U11', 'U12k', 'U13k', 'U26', 'U29', 'U33', 'U35k', 'U27k', 'U36'],
                 level_text='Verus proof of merge (sorted, stable, limit) and of the sort kernels against assumed contracts of the std sorts (stable where stability is asked for, NULLs last / first when descending), complete Kani proofs of integer/float comparators and LIMIT/OFFSET window arithmetic; string comparators bounded',
                 level_note='the std sorts themselves are assumed (A-std-sort); the top-n driver and the planner choice between sort and top-n (and which sorts it requests as stable) are not covered',
                 technique='contract-based deductive verification (Verus + Kani) of extracted functions',
                 assumptions=[], not_covered=['bodies of slice::sort_by / sort_unstable_by', 'TopN::execute/finalize', 'NormalFormQuery::run sort requests']),
-    'C03': dict(level='proof', units=['U01', 'U05k', 'U06k', 'U07k', 'U08v', 'U19', 'U25k', 'U34n'],
+    'C03': dict(level='proof', units=['U01', 'U05k', 'U06k', 'U07k', 'U08v', 'U19', 'U25k', 'U34n', 'U36'],
                 level_text='complete Kani proofs of comparison kernels and constant translation; Verus proof of null bitmap primitives and filter kernels; Kani proof that the planner rewrite makes a binary operator NULL exactly where an operand is NULL; bounded Kani check of string comparisons on dictionary indices',
                 level_note='compile_expr glue other than the NULL rewrite and dictionaries larger than 3 entries are not covered; LIKE is covered only by a bounded native enumeration of its pattern translation (patterns and subjects of <= 4 characters), not by a proof',
                 technique='contract-based deductive verification (Kani complete harnesses + Verus) of extracted / path-included real code',
